@@ -79,16 +79,25 @@ def _run(cmd, cwd=None, timeout=3600, env=None):
 
 
 def prop_theorems(pid):
-    """names of the theorems stated in lean/GBS/Props/<pid>*.lean (the obligations of the property)"""
+    """fully qualified names of the theorems stated in lean/GBS/Props/<pid>*.lean (the obligations of the property)"""
     names = []
     pdir = os.path.join(LEAN, "GBS", "Props")
     for fn in sorted(os.listdir(pdir)):
         if fn.startswith(pid) and fn.endswith(".lean"):
+            stack = []
             with open(os.path.join(pdir, fn)) as fh:
                 for line in fh:
+                    m = re.match(r"^namespace\s+(\S+)", line)
+                    if m:
+                        stack.append(m.group(1))
+                        continue
+                    m = re.match(r"^end\s+(\S+)", line)
+                    if m and stack and stack[-1] == m.group(1):
+                        stack.pop()
+                        continue
                     m = re.match(r"^theorem\s+([^\s({\[:]+)", line)
                     if m:
-                        names.append(m.group(1))
+                        names.append(".".join(stack + [m.group(1)]))
     return names
 
 
@@ -147,8 +156,7 @@ def build(pid, tier="quick"):
             with open(audit, "w") as fh:
                 for m in mods:
                     fh.write(f"import {m}\n")
-                fh.write("import GBS.Model.Parse\n")
-                fh.write("import GBS.Model.Heap\nopen GBS GBS.P GBS.Py GBS.Num GBS.Heap\n")
+                fh.write("\n")
                 for t in st.theorems:
                     fh.write(f"#print axioms {t}\n")
             rc2, out2 = _run(["lake", "env", "lean", audit], cwd=LEAN)
